@@ -92,7 +92,7 @@ func bytesDiffer(a, b []byte) bool {
 }
 
 var tamperNames = []string{"payload-byte", "payload-length", "log-id", "next-replace", "next-remove", "next-swap", "next-add",
-	"refs-replace", "refs-remove", "refs-swap", "refs-add", "version", "clock-id-bytes", "clock-id-length", "clock-time", "key", "sig"}
+	"refs-replace", "refs-remove", "refs-swap", "refs-add", "version", "clock-id-bytes", "clock-id-length", "clock-time", "key", "sig", "clock-id-emptied"}
 
 // refSigningBytes: the documented signing bytes of an entry (ipfs-log: JSON of hash=null, id, payload, next, refs,
 // v, clock{id,time}), built independently of the code under test.
@@ -131,6 +131,9 @@ func H_C07() {
 	nNext := vx.Choice("nNext", vx.Param("MAXNEXT", 2)+1)
 	nRefs := vx.Choice("nRefs", vx.Param("MAXREFS", 2)+1)
 	clockID := vx.BytesN("clockid", 1+vx.Choice("clockidLen", vx.Param("IDLEN", 2)))
+	if vx.Param("CLOCKKEY", 0) == 1 {
+		clockID = ids[0].PublicKey // what Append does: the clock id is the writer's public key
+	}
 	t := vx.Int("time")
 	logID := []string{"X", "Y"}[vx.Choice("logid", 2)]
 	e, err := entry.CreateEntryWithIO(ctx, api, ids[0], &entry.Entry{Payload: payload, LogID: logID,
@@ -153,6 +156,9 @@ func H_C07() {
 	}
 	vx.Assert("C07", e.Verify(ids[0].Provider, io) == nil, "the untampered entry verifies")
 	k := vx.Choice("tamper", len(tamperNames))
+	if vx.Param("CLOCKKEY", 0) == 1 {
+		vx.Assume(k != 12) // byte-wise replacement inside the key is not expressible (the key is one opaque value)
+	}
 	vx.Sig("tamper=" + tamperNames[k])
 	x := e.Copy()
 	x.SetHash(e.GetHash()) // the attacker keeps hash, key and signature
@@ -222,6 +228,12 @@ func H_C07() {
 		x.SetClock(entry.NewLamportClock(clockID, t2))
 	case 15: // another identity's key
 		x.SetKey(ids[1].PublicKey)
+	case 17: // the clock id removed altogether
+		if vx.Choice("emptyForm", 2) == 0 {
+			x.SetClock(entry.NewLamportClock(nil, t))
+		} else {
+			x.SetClock(entry.NewLamportClock([]byte{}, t))
+		}
 	case 16: // the signature of another (valid) entry
 		o, err := entry.CreateEntryWithIO(ctx, api, ids[0], &entry.Entry{Payload: []byte("other"), LogID: logID, Clock: entry.NewLamportClock(clockID, t)}, nil, io)
 		vx.Assume(err == nil)
